@@ -162,7 +162,7 @@ def make_warmup(n, d=1):
         st = StateManager(n_dim=d)
         st._current.update({"beta": 0.0, "calls": 0, "logz": 0.0, "iter": 1})
         mut = mutate_mod.Mutator(state=st, prior_transform=cb.prior_transform, log_likelihood=cb.log_likelihood, pbar=None, n_particles=n, n_dim=d)
-        stub = RandomStub(Draws(ctx), max_calls=4)
+        stub = RandomStub(Draws(ctx), max_calls=5)  # <= 3 unsupported batches in a row are followed, then one replacement draw
         with patched(mutate_mod, np=NpProxy(random=stub, overrides={"isinf": isinf_model})):
             mut.run(None)
         return st._current
@@ -171,16 +171,15 @@ def make_warmup(n, d=1):
         c = real(ctx, "c")
         c1 = one(ctx, Callbacks(d, inf=True))
         c2 = one(ctx, Callbacks(d, inf=True, shift=c))
-        if any(isinstance(v, float) for v in c1["logl"]) or any(isinstance(v, float) for v in c2["logl"]):
-            ctx.ok("all-infinite-batch (cut)")
-            return None
+        ctx.check("no-minus-inf-stored", z3.BoolVal(not (any(isinstance(v, float) for v in c1["logl"]) or any(isinstance(v, float) for v in c2["logl"]))))
         ctx.check("same-particles", z3.And(*[eq(a, b) for a, b in zip(np.asarray(c1["u"], dtype=object).reshape(-1), np.asarray(c2["u"], dtype=object).reshape(-1))]))
         ctx.check("logl-shifted-by-c", z3.And(*[eq(b, a + c) for a, b in zip(c1["logl"], c2["logl"])]))
         ctx.check("prior-phase-evidence-independent-of-c", z3.BoolVal(c1["logz"] == c2["logz"]))
         return None
 
     return Obligation(f"warmup-n{n}", harness, replay=None, encodes=[mutate_mod.Mutator.run],
-                      bounds=f"{n} prior draws, every -inf pattern (same support in both runs), symbolic shift c", theory="QF_UFLRA")
+                      bounds=f"{n} prior draws, every -inf pattern (same support in both runs), symbolic shift c", theory="QF_UFLRA",
+                      allow_bound="more than 3 consecutive prior batches without a supported draw are cut")
 
 
 H = Fraction(1, 2)
